@@ -562,6 +562,39 @@ func c15PatternLiteral(c *Check, a *Anchors) {
 			"WildcardMatch can answer `true` on a path that did not consult the anchored regexp (or returns wildcards that are not its sub-matches): such a shortcut is not equivalent for overlapping prefix/suffix, so a wrong task matches")
 	}
 	c.Floor("pattern-literal", n+2, 3)
+	// the regexp that is matched is compiled from the task's CURRENT name in this very call: a regexp kept in a field was
+	// compiled from the name the task had when it was stored (before Tasks.Merge gave an included task its namespace)
+	for call, l := range f.Labels {
+		if l != "regexp-match" {
+			continue
+		}
+		sel, ok := ast.Unparen(call.Fun).(*ast.SelectorExpr)
+		if !ok {
+			continue
+		}
+		stale := ""
+		var judge func(e ast.Expr, depth int)
+		judge = func(e ast.Expr, depth int) {
+			e = ast.Unparen(e)
+			switch x := e.(type) {
+			case *ast.CallExpr:
+				// a compile call, or a helper of the package: fine (the provenance of its argument is judged above)
+			case *ast.SelectorExpr:
+				if s := info.Selections[x]; s != nil && s.Kind() == types.FieldVal {
+					stale = exprStr(x)
+				}
+			case *ast.Ident:
+				if v, ok := info.Uses[x].(*types.Var); ok && !v.IsField() && depth > 0 {
+					for _, d := range defsOf(info, fb.Body, v) {
+						judge(d, depth-1)
+					}
+				}
+			}
+		}
+		judge(sel.X, 3)
+		c.Decide(stale == "", "pattern-literal", "pattern-from-current-name@"+name, call.Pos(), "the matched regexp is compiled in this call",
+			"the regexp that is matched can be the stored `"+stale+"`: it was compiled from the name the task had when it was stored, so after an included task was renamed to <namespace>:<name> the pattern still describes the old name — `inc:say-hello` does not match `inc:say-*`, and the un-namespaced `say-hello` does")
+	}
 }
 
 func c15Fuzzy(c *Check, a *Anchors) {
